@@ -9,6 +9,7 @@ from proxy.common.utils import build_http_request, build_http_response
 from proxy.http.parser import HttpParser, httpParserTypes, httpParserStates
 from proxy.http.parser.chunk import ChunkParser, chunkParserStates
 
+from proxy.common.constants import PROXY_AGENT_HEADER_VALUE
 from vlib import refhttp
 from vlib.hk import CFG, begin, ok, fail, skip, B
 
@@ -43,13 +44,21 @@ def req_roundtrip(p0: int, n0: int, v0: int, v1: int, w0: int, d0: int, d1: int,
     if nh >= 2:
         headers[b'Accept'] = B(w0)
     body = B(d0, d1, d2)[:blen]
+    ua = CFG.get('ua')          # None: builder told not to add one | 'default': builder adds its own | 'ua_first' / 'te_first': caller's own
+    if ua == 'ua_first':
+        headers[b'User-Agent'] = B(w0)
     given = dict(headers)
     if chunked:
         headers[b'Transfer-Encoding'] = b'chunked'
         wire_body = ChunkParser.to_chunks(body, 2)
     else:
         wire_body = body
-    raw = build_http_request(method, target, headers=dict(headers), body=wire_body if (blen or chunked) else None, no_ua=True)
+    if ua == 'te_first':
+        headers[b'User-Agent'] = B(w0)
+        given[b'User-Agent'] = B(w0)
+    if ua == 'default':
+        given[b'User-Agent'] = PROXY_AGENT_HEADER_VALUE
+    raw = build_http_request(method, target, headers=dict(headers), body=wire_body if (blen or chunked) else None, no_ua=(ua is None))
     # independent reader
     try:
         m = refhttp.read_message(raw, False)
@@ -205,6 +214,10 @@ def update_body(d0: int, d1: int, d2: int) -> bool:
     else:
         raise ValueError(mode)
     p = HttpParser.request(raw)
+    if CFG.get('build_first'):
+        # build() is a pure function of the message: having serialised it once (a plugin logging / caching the request) does not
+        # change what a later build() returns after the body was replaced
+        p.build()
     p.update_body(new, b'text/plain')
     try:
         out = p.build()
@@ -243,6 +256,10 @@ def obligations(tier):
                     continue
                 obs.append({'name': 'req.%s.h%d.b%d%s' % (METHODS[mi].decode(), nh, blen, '.chunked' if chunked else ''),
                             'fn': 'req_roundtrip', 'cfg': {'method': mi, 'nheaders': nh, 'blen': blen, 'chunked': chunked}, 'timeout': T})
+    for ua in ('default', 'ua_first', 'te_first'):
+        for blen, chunked in ((0, False), (2, False), (0, True), (2, True)):
+            obs.append({'name': 'req.POST.h1.b%d%s.ua_%s' % (blen, '.chunked' if chunked else '', ua), 'fn': 'req_roundtrip',
+                        'cfg': {'method': 1, 'nheaders': 1, 'blen': blen, 'chunked': chunked, 'ua': ua}, 'timeout': T})
     for nh in (0, 1):
         for rlen in (0, 2):
             for blen, chunked in ((0, False), (1, False), (3, False), (0, True), (2, True), (3, True)):
@@ -261,6 +278,8 @@ def obligations(tier):
     for mode in ('cl', 'chunked', 'br'):
         for blen in (0, 1, 3):
             obs.append({'name': 'update_body.%s.b%d' % (mode, blen), 'fn': 'update_body', 'cfg': {'mode': mode, 'blen': blen}, 'timeout': 120})
+            obs.append({'name': 'update_body.%s.b%d.after_build' % (mode, blen), 'fn': 'update_body',
+                        'cfg': {'mode': mode, 'blen': blen, 'build_first': True}, 'timeout': 120})
     return obs
 
 
